@@ -547,7 +547,7 @@ pub fn c10_out_nd_strided_n3() {
 
 /// second series LONGER than the first (it passes the drivers' length assert): every unchecked index still has to stay
 /// below the length of the FIRST series and every output slot is written once (added after seeded change C10-m1)
-pub fn long2<const N: usize, const M: usize>() {
+pub fn long2<const N: usize, const M: usize>() -> bool {
     let xs: [i32; N] = kani::any();
     let ys: [i32; M] = kani::any();
     let v: Vec<i32> = xs.to_vec();
@@ -564,23 +564,22 @@ pub fn long2<const N: usize, const M: usize>() {
         _ => { custom2_out!(v, &v2, w, N); },
     }
     kani::cover!(w >= N + 2, "window at least two longer than the first series");
-    if N >= 2 {
-        kani::cover!(w < N, "window shorter than the first series");
-    }
+    w < N
 }
 
 #[kani::proof]
 #[kani::stub(std::fmt::format, crate::util::fmt_stub)]
 #[kani::unwind(7)]
 pub fn c10_long2_n1() {
-    long2::<1, 3>();
+    let _short = long2::<1, 3>();       // N = 1: no window is shorter than the series
 }
 
 #[kani::proof]
 #[kani::stub(std::fmt::format, crate::util::fmt_stub)]
 #[kani::unwind(8)]
 pub fn c10_long2_n2() {
-    long2::<2, 4>();
+    let short = long2::<2, 4>();
+    kani::cover!(short, "window shorter than the first series");
 }
 
 #[cfg(feature = "thorough")]
@@ -588,7 +587,8 @@ pub fn c10_long2_n2() {
 #[kani::stub(std::fmt::format, crate::util::fmt_stub)]
 #[kani::unwind(9)]
 pub fn c10_long2_n3() {
-    long2::<3, 5>();
+    let short = long2::<3, 5>();
+    kani::cover!(short, "window shorter than the first series");
 }
 
 include!("c10_gen.rs");
